@@ -91,20 +91,30 @@ fn run_check_format(r: &Req) -> String {
 fn oracle_check_format(r: &Req, out: &str) -> Result<(), String> {
     // independent statement of "canonical encoding"
     let a = r.csc("");
+    // the honest notion: dims consistent, colptr starts at 0 (every stored entry belongs to a
+    // column), monotone, rows strictly increasing per column and < m
     let dims = a.rowval.len() == a.nzval.len()
         && a.colptr.len() == a.n + 1
         && a.colptr[a.n] == a.rowval.len()
+        && a.colptr[0] == 0
         && a.colptr.windows(2).all(|w| w[0] <= w[1]);
     let canon = dims
         && a.rowval.iter().all(|&r| r < a.m)
         && (0..a.n).all(|j| {
-            // colptr[0] need not be 0 (the code and the property follow check_dimensions)
             let lo = a.colptr[j];
             let hi = a.colptr[j + 1];
             a.rowval[lo..hi].windows(2).all(|w| w[0] < w[1])
         });
     if canon != (out == "ok") {
         return Err(format!("check_format says {} but canonical={}", out, canon));
+    }
+    // check_format = ok  =>  colptr[0] = 0 (no orphan entries), stated on its own
+    if out == "ok" && a.colptr.first() != Some(&0) {
+        return Err(format!("check_format accepted colptr[0] = {:?}: {} stored entries belong to no column", a.colptr.first(), a.colptr[0]));
+    }
+    // error kind for a shifted but otherwise dimension-consistent encoding
+    if welldim_but_shifted(&a) && out != "err:BadColptr" {
+        return Err(format!("shifted encoding (colptr[0] = {}) gave {}, expected err:BadColptr", a.colptr[0], out));
     }
     Ok(())
 }
@@ -362,6 +372,17 @@ fn run_findnz(r: &Req) -> String {
 }
 fn oracle_findnz(r: &Req, out: &str) -> Result<(), String> {
     let a = r.csc("");
+    if welldim_but_shifted(&a) && rows_ok(&a) {
+        // colptr[0] = k > 0 (C16.findnz_shifted): I, V are the whole arrays, J covers only the
+        // column data (nnz - k entries), column-major
+        let o = resp(out).ok_or("no triplets")?;
+        let (i, j, v) = (o.us("I"), o.us("J"), o.fs("V"));
+        let want_j: Vec<usize> = (0..a.n).flat_map(|c| std::iter::repeat(c).take(a.colptr[c + 1] - a.colptr[c])).collect();
+        if i != a.rowval || !same_bits(&v, &a.nzval) || j != want_j || j.len() + a.colptr[0] != a.rowval.len() {
+            return Err("findnz on a shifted encoding".into());
+        }
+        return Ok(());
+    }
     if !welldim(&a) || !rows_ok(&a) {
         return Ok(());
     }
@@ -389,6 +410,22 @@ fn run_canonicalize(r: &Req) -> String {
 }
 fn oracle_canonicalize(r: &Req, out: &str) -> Result<(), String> {
     let a = r.csc("");
+    if welldim_but_shifted(&a) {
+        // colptr[0] = k > 0: the first k stored entries belong to no column; canonicalize must
+        // refuse (it used to sweep them into column 0 and change the dense meaning)
+        if out == "err:BadColptr" {
+            return Ok(());
+        }
+        let mut detail = format!("canonicalize accepted a shifted encoding (colptr[0] = {}): {}", a.colptr[0], out);
+        if rows_ok(&a) {
+            if let Some((_, dt)) = dense_of_resp(out) {
+                if same_dense(&dt, &gen::to_dense(&a)).is_err() {
+                    detail.push_str(" — and changed the dense meaning of the matrix");
+                }
+            }
+        }
+        return Err(detail);
+    }
     if !welldim(&a) {
         return Ok(());
     }
@@ -457,6 +494,60 @@ fn oracle_check_equal_sparsity(r: &Req, out: &str) -> Result<(), String> {
         return Err(format!("{} expected {}", out, want));
     }
     Ok(())
+}
+
+fn run_new(r: &Req) -> String {
+    let a = r.csc("");
+    fmt_csc(&CscMatrix::new(a.m, a.n, a.colptr, a.rowval, a.nzval))
+}
+/// `new` stores its arguments when its three asserts hold and panics otherwise
+fn oracle_new(r: &Req, out: &str) -> Result<(), String> {
+    let a = r.csc("");
+    let ok = a.rowval.len() == a.nzval.len() && a.colptr.len() == a.n + 1 && a.colptr[a.n] == a.rowval.len();
+    if !ok {
+        return if out.starts_with("panic") { Ok(()) } else { Err(format!("inconsistent arguments accepted: {}", out)) };
+    }
+    let t = resp(out).ok_or(format!("consistent arguments gave {}", out))?.csc("");
+    if (t.m, t.n) != (a.m, a.n) || t.colptr != a.colptr || t.rowval != a.rowval || !same_bits(&t.nzval, &a.nzval) {
+        return Err("new changed its arguments".into());
+    }
+    Ok(())
+}
+fn run_eq(r: &Req) -> String {
+    fb(r.csc("a") == r.csc("b")).to_string()
+}
+/// derived PartialEq = field-wise equality, values compared as IEEE numbers
+fn oracle_eq(r: &Req, out: &str) -> Result<(), String> {
+    let (a, b) = (r.csc("a"), r.csc("b"));
+    let want = (a.m, a.n) == (b.m, b.n)
+        && a.colptr == b.colptr
+        && a.rowval == b.rowval
+        && a.nzval.len() == b.nzval.len()
+        && a.nzval.iter().zip(&b.nzval).all(|(x, y)| x == y);
+    if want != (out == "1") {
+        return Err(format!("== gives {} expected {}", out, want));
+    }
+    // for canonical operands without NaN: equal encodings <=> same shape, pattern and dense values
+    // up to the sign of zero
+    if canonical(&a) && canonical(&b) && all_finite(&a.nzval) && all_finite(&b.nzval) && (a.m, a.n) == (b.m, b.n) {
+        let same = pattern(&a) == pattern(&b) && same_dense(&gen::to_dense(&a), &gen::to_dense(&b)).is_ok();
+        if same != want {
+            return Err(format!("== gives {} but pattern/dense comparison gives {}", want, same));
+        }
+    }
+    Ok(())
+}
+fn run_shape(r: &Req) -> String {
+    let a = r.csc("");
+    { let (nr, nc, sq) = hook::shape(&a); format!("nrows={} ncols={} sq={} nnz={}", nr, nc, fb(sq), a.nnz()) }
+}
+fn oracle_shape(r: &Req, out: &str) -> Result<(), String> {
+    let a = r.csc("");
+    if a.colptr.len() <= a.n {
+        return if out.starts_with("panic") { Ok(()) } else { Err("nnz read past colptr".into()) };
+    }
+    let want = format!("nrows={} ncols={} sq={} nnz={}", a.m, a.n, fb(a.m == a.n), a.colptr[a.n]);
+    if out != want { Err(format!("{} expected {}", out, want)) } else { Ok(()) }
 }
 
 fn run_get_entry(r: &Req) -> String {
@@ -568,7 +659,19 @@ fn run_symv(r: &Req) -> String {
     format!("y={}", ffs(&y))
 }
 /// y_out = a·D·x + b·y with D dense (mr × mc); componentwise rounding allowance
-fn check_axpby(d: &Dense, mr: usize, mc: usize, y0: &[f64], x: &[f64], a: f64, b: f64, out: &str) -> Result<(), String> {
+/// dense matrix of Σ|stored value| per position (equals |dense| for duplicate-free input);
+/// the rounding allowance must be scaled by what is actually summed: nearly cancelling
+/// duplicates make |dense entry| much smaller than the terms that produced it
+fn to_dense_abs(a: &CscMatrix<f64>) -> Dense {
+    let mut d = vec![vec![0.0; a.n]; a.m];
+    for c in 0..a.n {
+        for k in a.colptr[c]..a.colptr[c + 1] {
+            d[a.rowval[k]][c] += a.nzval[k].abs();
+        }
+    }
+    d
+}
+fn check_axpby(d: &Dense, dabs: &Dense, mr: usize, mc: usize, y0: &[f64], x: &[f64], a: f64, b: f64, out: &str) -> Result<(), String> {
     let o = resp(out).ok_or("no vector returned")?;
     let y = o.fs("y");
     if y.len() != y0.len() {
@@ -588,7 +691,7 @@ fn check_axpby(d: &Dense, mr: usize, mc: usize, y0: &[f64], x: &[f64], a: f64, b
         let mut scale = by.abs();
         for j in 0..mc {
             acc += d[i][j] * x[j];
-            scale += (a * d[i][j] * x[j]).abs();
+            scale += (a * dabs[i][j] * x[j]).abs();
         }
         let want = by + a * acc;
         if !close(y[i], want, scale) {
@@ -602,7 +705,7 @@ fn oracle_gemv_n(r: &Req, out: &str) -> Result<(), String> {
     if !welldim(&a_) || !rows_ok(&a_) || x.len() != a_.n || y.len() != a_.m {
         return Ok(());
     }
-    check_axpby(&gen::to_dense(&a_), a_.m, a_.n, &y, &x, a, b, out)
+    check_axpby(&gen::to_dense(&a_), &to_dense_abs(&a_), a_.m, a_.n, &y, &x, a, b, out)
 }
 fn oracle_gemv_t(r: &Req, out: &str) -> Result<(), String> {
     let (a_, y, x, a, b) = gemv_args(r);
@@ -611,7 +714,9 @@ fn oracle_gemv_t(r: &Req, out: &str) -> Result<(), String> {
     }
     let d = gen::to_dense(&a_);
     let dt: Dense = (0..a_.n).map(|j| (0..a_.m).map(|i| d[i][j]).collect()).collect();
-    check_axpby(&dt, a_.n, a_.m, &y, &x, a, b, out)
+    let da = to_dense_abs(&a_);
+    let dat: Dense = (0..a_.n).map(|j| (0..a_.m).map(|i| da[i][j]).collect()).collect();
+    check_axpby(&dt, &dat, a_.n, a_.m, &y, &x, a, b, out)
 }
 fn sym_dense(a: &CscMatrix<f64>) -> Dense {
     let d = gen::to_dense(a);
@@ -1012,13 +1117,207 @@ fn run_v_axpby(r: &Req) -> String {
 }
 fn run_v_waxpby(r: &Req) -> String {
     let x = r.fs("x");
-    let mut w = vec![0.0; x.len()];
+    let mut w = vec![0.0; if r.has("wlen") { r.u("wlen") } else { x.len() }];
     VectorMath::waxpby(&mut w[..], r.f("a"), &x, r.f("b"), &r.fs("y"));
     format!("w={}", ffs(&w))
 }
 fn run_v_dot_shifted(r: &Req) -> String {
     val(<[f64] as VectorMath<f64>>::dot_shifted(&r.fs("z"), &r.fs("s"), &r.fs("dz"), &r.fs("ds"), r.f("a")))
 }
+fn run_v_norm_one_scaled(r: &Req) -> String { val(xs(r).norm_one_scaled(&r.fs("y"))) }
+fn run_v_norm_inf_diff(r: &Req) -> String { val(xs(r).norm_inf_diff(&r.fs("y"))) }
+fn run_v_dist(r: &Req) -> String { val(xs(r).dist(&r.fs("y"))) }
+fn run_s_logsafe(r: &Req) -> String { xout(&xs(r).iter().map(|v| v.logsafe()).collect::<Vec<f64>>()) }
+/// `logsafe`: −∞ for a non-positive argument, the logarithm otherwise (monotone, log 1 = 0)
+fn oracle_s_logsafe(r: &Req, out: &str) -> Result<(), String> {
+    let x = xs(r);
+    let o = resp(out).ok_or("no values")?;
+    let got = o.fs("x");
+    if got.len() != x.len() { return Err("length".into()); }
+    for (i, (&v, &g)) in x.iter().zip(&got).enumerate() {
+        if v.is_nan() { if !g.is_nan() { return Err(format!("logsafe(NaN) = {}", g)); } continue; }
+        if v <= 0.0 {
+            if g != f64::NEG_INFINITY { return Err(format!("logsafe({:e}) = {:e}, expected -inf", v, g)); }
+        } else {
+            if g == f64::NEG_INFINITY || g.is_nan() { return Err(format!("logsafe({:e}) = {:e}", v, g)); }
+            if v == 1.0 && g != 0.0 { return Err("logsafe(1) != 0".into()); }
+            if v.is_finite() && (g.exp() - v).abs() > 1e-12 * v * (1.0 + g.abs()) { return Err(format!("exp(logsafe({:e})) = {:e}", v, g.exp())); }
+        }
+        for (j, (&w, &h)) in x.iter().zip(&got).enumerate() {
+            if j != i && v < w && g > h { return Err(format!("logsafe not monotone at {:e} < {:e}", v, w)); }
+        }
+    }
+    Ok(())
+}
+fn run_s_clip(r: &Req) -> String { val(r.f("v").clip(r.f("lo"), r.f("hi"))) }
+fn oracle_s_clip(r: &Req, out: &str) -> Result<(), String> {
+    let (v, lo, hi) = (r.f("v"), r.f("lo"), r.f("hi"));
+    let g = resp(out).ok_or("no value")?.f("v");
+    let want = if v < lo { lo } else if v > hi { hi } else { v };
+    if g.to_bits() != want.to_bits() && !(g.is_nan() && want.is_nan()) { return Err(format!("clip = {:e} expected {:e}", g, want)); }
+    if lo <= hi && !v.is_nan() && !(lo <= g && g <= hi) { return Err("clip outside [lo, hi]".into()); }
+    Ok(())
+}
+fn run_v_is_finite(r: &Req) -> String { fb(xs(r).is_finite()).to_string() }
+fn run_v_normalize(r: &Req) -> String {
+    let mut x = xs(r);
+    let nrm = VectorMath::normalize(&mut x[..]);
+    format!("{} {}", val(nrm), xout(&x))
+}
+fn run_v_copy_from(r: &Req) -> String { let mut x = xs(r); VectorMath::copy_from(&mut x[..], &r.fs("y")); xout(&x) }
+fn run_v_set(r: &Req) -> String { let mut x = xs(r); VectorMath::set(&mut x[..], r.f("c")); xout(&x) }
+/// the closures passed to `scalarop` / `scalarop_from` (same table in Driver/C16.lean)
+fn scalar_op_of(op: usize) -> fn(f64) -> f64 {
+    match op {
+        0 => |v| v + 1.5,
+        1 => |v| v * v,
+        2 => |v| 0.0 - v,
+        3 => |_v| 2.0,
+        _ => |v| v / 3.0,
+    }
+}
+fn run_v_scalarop(r: &Req) -> String { let mut x = xs(r); VectorMath::scalarop(&mut x[..], scalar_op_of(r.u("op"))); xout(&x) }
+fn run_v_scalarop_from(r: &Req) -> String {
+    let mut x = xs(r);
+    VectorMath::scalarop_from(&mut x[..], scalar_op_of(r.u("op")), &r.fs("y"));
+    xout(&x)
+}
+
+/// the elementwise / data-movement kernels stated directly (independent of the model):
+/// length kept, entry i = the scalar function of entry i; bitwise comparison (NaN = NaN)
+fn same_bits(a: &[f64], b: &[f64]) -> bool {
+    a.len() == b.len() && a.iter().zip(b).all(|(p, q)| p.to_bits() == q.to_bits() || (p.is_nan() && q.is_nan()))
+}
+fn oracle_v_elementwise(r: &Req, out: &str) -> Result<(), String> {
+    let x = xs(r);
+    let y = if r.has("y") { r.fs("y") } else { vec![] };
+    let o = match resp(out) {
+        Some(o) => o,
+        None => {
+            // a panic is legitimate exactly on the asserted length mismatches
+            let must_panic = match r.chan.as_str() {
+                "vec.copy_from" | "vec.axpby" => x.len() != y.len(),
+                "vec.select" => x.len() != r.bs("idx").len(),
+                "vec.waxpby" => { let w = if r.has("wlen") { r.u("wlen") } else { x.len() }; w != x.len() || w != y.len() }
+                _ => false,
+            };
+            return if must_panic { Ok(()) } else { Err(format!("unexpected {}", out)) };
+        }
+    };
+    let key = match r.chan.as_str() { "vec.axpby" => "y", "vec.waxpby" => "w", _ => "x" };
+    let got = o.fs(key);
+    let clipf = |v: f64, lo: f64, hi: f64| if v < lo { lo } else if v > hi { hi } else { v };
+    let want: Vec<f64> = match r.chan.as_str() {
+        "vec.negate" => x.iter().map(|v| -v).collect(),
+        "vec.recip" => x.iter().map(|v| 1.0 / v).collect(),
+        "vec.sqrt" => x.iter().map(|v| v.sqrt()).collect(),
+        "vec.rsqrt" => x.iter().map(|v| 1.0 / v.sqrt()).collect(),
+        "vec.scale" => x.iter().map(|v| v * r.f("c")).collect(),
+        "vec.translate" => x.iter().map(|v| v + r.f("c")).collect(),
+        "vec.set" => x.iter().map(|_| r.f("c")).collect(),
+        "vec.clip" => x.iter().map(|&v| clipf(v, r.f("lo"), r.f("hi"))).collect(),
+        "vec.hadamard" => (0..x.len()).map(|i| if i < y.len() { x[i] * y[i] } else { x[i] }).collect(),
+        "vec.copy_from" => { if x.len() != y.len() { return Err("copy_from accepted a length mismatch".into()); } y.clone() }
+        "vec.scalarop" => x.iter().map(|&v| scalar_op_of(r.u("op"))(v)).collect(),
+        "vec.scalarop_from" => (0..x.len()).map(|i| if i < y.len() { scalar_op_of(r.u("op"))(y[i]) } else { x[i] }).collect(),
+        "vec.select" => {
+            let idx = r.bs("idx");
+            if idx.len() != x.len() { return Err("select accepted a length mismatch".into()); }
+            (0..x.len()).filter(|&i| idx[i]).map(|i| x[i]).collect()
+        }
+        "vec.axpby" => {
+            if x.len() != y.len() { return Err("axpby accepted a length mismatch".into()); }
+            (0..x.len()).map(|i| r.f("a") * x[i] + r.f("b") * y[i]).collect()
+        }
+        "vec.waxpby" => {
+            let w = if r.has("wlen") { r.u("wlen") } else { x.len() };
+            if w != x.len() || w != y.len() { return Err("waxpby accepted a length mismatch".into()); }
+            (0..x.len()).map(|i| r.f("a") * x[i] + r.f("b") * y[i]).collect()
+        }
+        _ => return Ok(()),
+    };
+    if !same_bits(&got, &want) {
+        return Err(format!("{}: got {:?} expected {:?}", r.chan, got, want));
+    }
+    if r.chan == "vec.clip" && r.f("lo") <= r.f("hi") {
+        // bounds and idempotence (NaN entries pass through clip unchanged)
+        for &g in &got {
+            if !g.is_nan() && !(r.f("lo") <= g && g <= r.f("hi")) {
+                return Err(format!("clip result {} outside [{}, {}]", g, r.f("lo"), r.f("hi")));
+            }
+            if !g.is_nan() && clipf(g, r.f("lo"), r.f("hi")).to_bits() != g.to_bits() {
+                return Err("clip not idempotent".into());
+            }
+        }
+    }
+    Ok(())
+}
+/// properties of the remaining reductions on finite moderate data
+fn oracle_v_reduce2(r: &Req, out: &str) -> Result<(), String> {
+    let x = if r.has("x") { xs(r) } else { vec![] };
+    let y = if r.has("y") { r.fs("y") } else { vec![] };
+    if r.chan == "vec.is_finite" {
+        let want = x.iter().all(|v| v.is_finite());
+        return if (out == "1") == want { Ok(()) } else { Err(format!("is_finite={} expected {}", out, want)) };
+    }
+    let o = match resp(out) {
+        Some(o) => o,
+        None => {
+            let asserted = matches!(r.chan.as_str(), "vec.norm_scaled" | "vec.norm_inf_scaled" | "vec.dot_shifted");
+            let mismatch = if r.chan == "vec.dot_shifted" {
+                let (z, s, dz, ds) = (r.fs("z"), r.fs("s"), r.fs("dz"), r.fs("ds"));
+                z.len() != s.len() || z.len() != dz.len() || s.len() != ds.len()
+            } else { x.len() != y.len() };
+            return if asserted && mismatch { Ok(()) } else { Err(format!("unexpected {}", out)) };
+        }
+    };
+    let v = o.f("v");
+    if r.chan == "vec.dot_shifted" {
+        let (z, s, dz, ds, a) = (r.fs("z"), r.fs("s"), r.fs("dz"), r.fs("ds"), r.f("a"));
+        if z.len() != s.len() || z.len() != dz.len() || s.len() != ds.len() { return Err("dot_shifted accepted a length mismatch".into()); }
+        let all: Vec<f64> = z.iter().chain(&s).chain(&dz).chain(&ds).cloned().collect();
+        if !all_finite(&all) || all.iter().any(|t| t.abs() > 1e100) { return Ok(()); }
+        let terms: Vec<f64> = (0..z.len()).map(|i| (s[i] + a * ds[i]) * (z[i] + a * dz[i])).collect();
+        let (want, scale) = (terms.iter().sum::<f64>(), terms.iter().map(|t| t.abs()).sum::<f64>());
+        return if close(v, want, scale) { Ok(()) } else { Err(format!("dot_shifted = {:e} expected {:e}", v, want)) };
+    }
+    if matches!(r.chan.as_str(), "vec.norm_scaled" | "vec.norm_inf_scaled") && x.len() != y.len() {
+        return Err(format!("{} accepted a length mismatch", r.chan));
+    }
+    if !all_finite(&x) || !all_finite(&y) || x.iter().chain(y.iter()).any(|t| t.abs() > 1e100) {
+        return Ok(());
+    }
+    let k = x.len().min(y.len());
+    let (want, scale): (f64, f64) = match r.chan.as_str() {
+        "vec.norm_scaled" => { let s: f64 = (0..k).map(|i| (x[i] * y[i]) * (x[i] * y[i])).sum(); (s.sqrt(), s.sqrt()) }
+        "vec.norm_inf_scaled" => ((0..k).fold(0.0, |m: f64, i| m.max((x[i] * y[i]).abs())), 0.0),
+        "vec.norm_one_scaled" => { let s: f64 = (0..k).map(|i| (x[i] * y[i]).abs()).sum(); (s, s) }
+        "vec.norm_inf_diff" => ((0..k).fold(0.0, |m: f64, i| m.max((x[i] - y[i]).abs())), 0.0),
+        "vec.dist" => { let s: f64 = (0..k).map(|i| (x[i] - y[i]) * (x[i] - y[i])).sum(); (s.sqrt(), s.sqrt()) }
+        "vec.normalize" => {
+            let s: f64 = x.iter().map(|a| a * a).sum();
+            let nrm = s.sqrt();
+            let got = o.fs("x");
+            if got.len() != x.len() { return Err("normalize changed the length".into()); }
+            if nrm == 0.0 {
+                if v != 0.0 || !same_bits(&got, &x) { return Err("normalize touched a zero-norm vector".into()); }
+            } else if nrm.is_finite() && nrm > 1e-150 {
+                let n2: f64 = got.iter().map(|a| a * a).sum::<f64>().sqrt();
+                if (n2 - 1.0).abs() > 1e-12 * (x.len() as f64 + 4.0) { return Err(format!("normalized vector has norm {:e}", n2)); }
+                for i in 0..x.len() {
+                    if !close(got[i] * nrm, x[i], x[i].abs()) { return Err(format!("normalize entry {}", i)); }
+                }
+            }
+            (nrm, nrm)
+        }
+        _ => return Ok(()),
+    };
+    if !close(v, want, scale) {
+        return Err(format!("{} = {:e} expected {:e}", r.chan, v, want));
+    }
+    Ok(())
+}
+
 /// meaning of the scalar reductions, on finite data, with a rounding allowance
 fn oracle_v_reduce(r: &Req, out: &str) -> Result<(), String> {
     let x = xs(r);
@@ -1061,34 +1360,37 @@ fn channels() -> Vec<Channel> {
     vec![
         ch!("csc.check_format", e, run_check_format, Some(oracle_check_format), "CscMatrix::check_format", "Csc.checkFormat / C16.check_format_iff"),
         ch!("csc.to_triu", e, run_to_triu, Some(oracle_to_triu), "CscMatrix::to_triu", "Csc.toTriu / C16.toTriu_spec"),
-        ch!("csc.is_triu", e, run_is_triu, Some(oracle_is_triu), "CscMatrix::is_triu", "Csc.isTriu"),
+        ch!("csc.is_triu", e, run_is_triu, Some(oracle_is_triu), "CscMatrix::is_triu", "Csc.isTriu / C16.isTriu_iff"),
         ch!("csc.select_rows", e, run_select_rows, Some(oracle_select_rows), "CscMatrix::select_rows", "Csc.selectRows / C16.selectRows_spec"),
         ch!("csc.transpose", e, run_transpose, Some(oracle_transpose), "From<Adjoint<CscMatrix>>", "Csc.transpose / C16.transpose_dense, C16.transpose_canonical"),
         ch!("csc.from_rows", e, run_from_rows, Some(oracle_from_rows), "CscMatrix::from(rows)", "Csc.fromRows / C16.fromRows_spec"),
         ch!("csc.new_from_triplets", e, run_new_from_triplets, Some(oracle_new_from_triplets), "CscMatrix::new_from_triplets", "Csc.newFromTriplets / C16.newFromTriplets_spec"),
-        ch!("csc.spalloc", e, run_spalloc, Some(oracle_spalloc), "CscMatrix::spalloc", "Csc.spalloc"),
+        ch!("csc.spalloc", e, run_spalloc, Some(oracle_spalloc), "CscMatrix::spalloc", "Csc.spalloc / C16.spalloc_spec"),
         ch!("csc.zeros", e, run_zeros, Some(oracle_zeros), "CscMatrix::zeros", "Csc.zeros / C16.zeros_spec"),
         ch!("csc.identity", e, run_identity, Some(oracle_identity), "CscMatrix::identity", "Csc.identity / C16.identity_spec"),
         ch!("csc.dropzeros", e, run_dropzeros, Some(oracle_dropzeros), "CscMatrix::dropzeros", "Csc.dropzeros / C16.dropzeros_spec"),
-        ch!("csc.findnz", e, run_findnz, Some(oracle_findnz), "CscMatrix::findnz", "Csc.findnz"),
+        ch!("csc.findnz", e, run_findnz, Some(oracle_findnz), "CscMatrix::findnz", "Csc.findnz / C16.findnz_spec, findnz_roundtrip, findnz_shifted"),
         ch!("csc.canonicalize", e, run_canonicalize, Some(oracle_canonicalize), "CscMatrix::canonicalize (sort_indices, deduplicate)", "Csc.canonicalize / C16.canonicalize_spec, canonicalize_of_canonical, canonicalize_idem"),
-        ch!("csc.is_equal_sparsity", e, run_is_equal_sparsity, Some(oracle_is_equal_sparsity), "CscMatrix::is_equal_sparsity", "Csc.isEqualSparsity"),
-        ch!("csc.check_equal_sparsity", e, run_check_equal_sparsity, Some(oracle_check_equal_sparsity), "CscMatrix::check_equal_sparsity", "Csc.checkEqualSparsity"),
+        ch!("csc.is_equal_sparsity", e, run_is_equal_sparsity, Some(oracle_is_equal_sparsity), "CscMatrix::is_equal_sparsity", "Csc.isEqualSparsity / C16.equal_sparsity_iff"),
+        ch!("csc.check_equal_sparsity", e, run_check_equal_sparsity, Some(oracle_check_equal_sparsity), "CscMatrix::check_equal_sparsity", "Csc.checkEqualSparsity / C16.equal_sparsity_iff"),
+        ch!("csc.new", e, run_new, Some(oracle_new), "CscMatrix::new", "Csc.new / C16.new_spec"),
+        ch!("csc.eq", e, run_eq, Some(oracle_eq), "PartialEq for CscMatrix (derived ==)", "Csc.isEqual / C16.isEqual_iff, canonical_encoding_unique"),
+        ch!("csc.shape", e, run_shape, Some(oracle_shape), "ShapedMatrix::{nrows,ncols,is_square}, CscMatrix::nnz", "Csc.nnzE, Csc.isSquare / C16.nnz_isSquare_spec"),
         ch!("csc.get_entry", e, run_get_entry, Some(oracle_get_entry), "CscMatrix::get_entry", "Csc.getEntry / C16.getEntry_eq"),
         ch!("csc.set_entry", e, run_set_entry, Some(oracle_set_entry), "CscMatrix::set_entry", "Csc.setEntry / C16.setEntry_getEntry"),
-        ch!("csc.index_to_coord", e, run_index_to_coord, Some(oracle_index_to_coord), "CscMatrix::index_to_coord", "Csc.indexToCoord / C16.indexToCoord_spec"),
+        ch!("csc.index_to_coord", e, run_index_to_coord, Some(oracle_index_to_coord), "CscMatrix::index_to_coord", "Csc.indexToCoord / C16.indexToCoord_spec, indexToCoord_general_spec, indexToCoord_below_colptr0"),
         ch!("csc.gemv_n", e, run_gemv_n, Some(oracle_gemv_n), "_csc_axpby_N (MatrixVectorMultiply::gemv)", "Csc.gemvN / C16.gemvN_spec"),
         ch!("csc.gemv_t", e, run_gemv_t, Some(oracle_gemv_t), "_csc_axpby_T (Adjoint gemv)", "Csc.gemvT / C16.gemvT_spec"),
         ch!("csc.symv", e, run_symv, Some(oracle_symv), "_csc_symv_unsafe (SymMatrixVectorMultiply::symv)", "Csc.symv / C16.symv_spec"),
         ch!("csc.quad_form", e, run_quad_form, Some(oracle_quad_form), "_csc_quad_form", "Csc.quadForm / C16.quadForm_spec"),
         ch!("csc.col_sums", e, run_col_sums, Some(oracle_col_sums), "MatrixMath::col_sums", "Csc.colSums / C16.colSums_spec"),
-        ch!("csc.row_sums", e, run_row_sums, Some(oracle_row_sums), "MatrixMath::row_sums", "Csc.rowSums / C16.rowSums_spec"),
+        ch!("csc.row_sums", e, run_row_sums, Some(oracle_row_sums), "MatrixMath::row_sums", "Csc.rowSums / C16.rowSums_spec, rowSums_general_spec"),
         ch!("csc.col_norms", e, run_col_norms, Some(oracle_col_norms), "MatrixMath::col_norms", "Csc.colNorms / C16.colNorms_spec"),
         ch!("csc.col_norms_no_reset", e, run_col_norms_no_reset, Some(oracle_col_norms_nr), "MatrixMath::col_norms_no_reset", "Csc.colNormsNoReset / C16.colNormsNoReset_spec"),
-        ch!("csc.col_norms_sym", e, run_col_norms_sym, Some(oracle_sym_norms), "MatrixMath::col_norms_sym", "Csc.colNormsSym"),
+        ch!("csc.col_norms_sym", e, run_col_norms_sym, Some(oracle_sym_norms), "MatrixMath::col_norms_sym", "Csc.colNormsSym / C16.colNormsSym_spec"),
         ch!("csc.col_norms_sym_no_reset", e, run_col_norms_sym_no_reset, Some(oracle_sym_norms_nr), "MatrixMath::col_norms_sym_no_reset", "Csc.colNormsSymNoReset / C16.colNormsSymNoReset_spec"),
         ch!("csc.row_norms", e, run_row_norms, Some(oracle_row_norms), "MatrixMath::row_norms", "Csc.rowNorms / C16.rowNorms_spec"),
-        ch!("csc.row_norms_no_reset", e, run_row_norms_no_reset, Some(oracle_row_norms_nr), "MatrixMath::row_norms_no_reset", "Csc.rowNormsNoReset / C16.rowNormsNoReset_spec"),
+        ch!("csc.row_norms_no_reset", e, run_row_norms_no_reset, Some(oracle_row_norms_nr), "MatrixMath::row_norms_no_reset", "Csc.rowNormsNoReset / C16.rowNormsNoReset_spec, rowNormsNoReset_general_spec"),
         ch!("csc.scale", e, run_scale, Some(oracle_scale), "MatrixMathMut::scale", "Csc.scale / C16.scale_spec"),
         ch!("csc.negate", e, run_negate, Some(oracle_negate), "MatrixMathMut::negate", "Csc.negate / C16.negate_spec"),
         ch!("csc.lscale", e, run_lscale, Some(oracle_lscale), "MatrixMathMut::lscale", "Csc.lscale / C16.lscale_spec"),
@@ -1097,30 +1399,41 @@ fn channels() -> Vec<Channel> {
         ch!("csc.hcat", e, run_hcat, Some(oracle_hcat), "BlockConcatenate::hcat", "Csc.hcat / C16.hcat_spec, hcat_error_iff"),
         ch!("csc.vcat", e, run_vcat, Some(oracle_vcat), "BlockConcatenate::vcat", "Csc.vcat / C16.vcat_spec, vcat_error_iff"),
         ch!("csc.blockdiag", e, run_blockdiag, Some(oracle_blockdiag), "BlockConcatenate::blockdiag", "Csc.blockdiag / C16.blockdiag_spec, blockdiag_error_iff"),
-        ch!("csc.hvcat", e, run_hvcat, Some(oracle_hvcat), "BlockConcatenate::hvcat + hvcat_dim_check", "Csc.hvcat / Csc.hvcatDimCheck"),
-        ch!("vec.dot", e, run_v_dot, Some(oracle_v_reduce), "VectorMath::dot", "Vec.dot"),
-        ch!("vec.sumsq", e, run_v_sumsq, Some(oracle_v_reduce), "VectorMath::sumsq", "Vec.sumsq"),
-        ch!("vec.sum", e, run_v_sum, Some(oracle_v_reduce), "VectorMath::sum", "Vec.sum"),
-        ch!("vec.norm", e, run_v_norm, Some(oracle_v_reduce), "VectorMath::norm", "Vec.norm"),
-        ch!("vec.norm_inf", e, run_v_norm_inf, Some(oracle_v_reduce), "VectorMath::norm_inf", "Vec.normInf"),
-        ch!("vec.norm_one", e, run_v_norm_one, Some(oracle_v_reduce), "VectorMath::norm_one", "Vec.normOne"),
-        ch!("vec.norm_scaled", e, run_v_norm_scaled, None, "VectorMath::norm_scaled", "Vec.normScaled"),
-        ch!("vec.norm_inf_scaled", e, run_v_norm_inf_scaled, None, "VectorMath::norm_inf_scaled", "Vec.normInfScaled"),
-        ch!("vec.mean", e, run_v_mean, Some(oracle_v_reduce), "VectorMath::mean", "Vec.mean"),
-        ch!("vec.minimum", e, run_v_minimum, Some(oracle_v_reduce), "VectorMath::minimum", "Vec.minimum?"),
-        ch!("vec.maximum", e, run_v_maximum, Some(oracle_v_reduce), "VectorMath::maximum", "Vec.maximum?"),
-        ch!("vec.negate", e, run_v_negate, None, "VectorMath::negate", "Vec.negate"),
-        ch!("vec.recip", e, run_v_recip, None, "VectorMath::recip", "Vec.recip"),
-        ch!("vec.sqrt", e, run_v_sqrt, None, "VectorMath::sqrt", "Vec.vsqrt"),
-        ch!("vec.rsqrt", e, run_v_rsqrt, None, "VectorMath::rsqrt", "Vec.rsqrt"),
-        ch!("vec.hadamard", e, run_v_hadamard, None, "VectorMath::hadamard", "Vec.hadamard"),
-        ch!("vec.scale", e, run_v_scale, None, "VectorMath::scale", "Vec.scale"),
-        ch!("vec.translate", e, run_v_translate, None, "VectorMath::translate", "Vec.translate"),
-        ch!("vec.clip", e, run_v_clip, None, "VectorMath::clip / ScalarMath::clip", "Vec.clip"),
-        ch!("vec.select", e, run_v_select, None, "VectorMath::select", "Vec.select"),
-        ch!("vec.axpby", e, run_v_axpby, None, "VectorMath::axpby", "Vec.axpby"),
-        ch!("vec.waxpby", e, run_v_waxpby, None, "VectorMath::waxpby", "Vec.waxpby"),
-        ch!("vec.dot_shifted", e, run_v_dot_shifted, None, "VectorMath::dot_shifted", "Vec.dotShifted"),
+        ch!("csc.hvcat", e, run_hvcat, Some(oracle_hvcat), "BlockConcatenate::hvcat + hvcat_dim_check", "Csc.hvcat, Csc.hvcatDimCheck / C16.hvcat_spec, hvcat_error_iff"),
+        ch!("vec.dot", e, run_v_dot, Some(oracle_v_reduce), "VectorMath::dot", "Vec.dot / C16.vec_sums_spec, vec_dot_linear"),
+        ch!("vec.sumsq", e, run_v_sumsq, Some(oracle_v_reduce), "VectorMath::sumsq", "Vec.sumsq / C16.vec_sums_spec, vec_sumsq_definite"),
+        ch!("vec.sum", e, run_v_sum, Some(oracle_v_reduce), "VectorMath::sum", "Vec.sum / C16.vec_sums_spec"),
+        ch!("vec.norm", e, run_v_norm, Some(oracle_v_reduce), "VectorMath::norm", "Vec.norm / C16.vec_norm_real"),
+        ch!("vec.norm_inf", e, run_v_norm_inf, Some(oracle_v_reduce), "VectorMath::norm_inf", "Vec.normInf / C16.vec_normInf_spec, vec_normInf_nan"),
+        ch!("vec.norm_one", e, run_v_norm_one, Some(oracle_v_reduce), "VectorMath::norm_one", "Vec.normOne / C16.vec_normOne_spec"),
+        ch!("vec.norm_scaled", e, run_v_norm_scaled, Some(oracle_v_reduce2), "VectorMath::norm_scaled", "Vec.normScaledE / C16.vec_norm_real"),
+        ch!("vec.norm_inf_scaled", e, run_v_norm_inf_scaled, Some(oracle_v_reduce2), "VectorMath::norm_inf_scaled", "Vec.normInfScaledE / C16.vec_normInfScaled_diff_spec"),
+        ch!("vec.mean", e, run_v_mean, Some(oracle_v_reduce), "VectorMath::mean", "Vec.mean / C16.vec_mean_spec"),
+        ch!("vec.minimum", e, run_v_minimum, Some(oracle_v_reduce), "VectorMath::minimum", "Vec.minimum? / C16.vec_min_max_spec"),
+        ch!("vec.maximum", e, run_v_maximum, Some(oracle_v_reduce), "VectorMath::maximum", "Vec.maximum? / C16.vec_min_max_spec"),
+        ch!("vec.negate", e, run_v_negate, Some(oracle_v_elementwise), "VectorMath::negate", "Vec.negate / C16.vec_elementwise_eq_scalarop"),
+        ch!("vec.recip", e, run_v_recip, Some(oracle_v_elementwise), "VectorMath::recip", "Vec.recip / C16.vec_elementwise_eq_scalarop"),
+        ch!("vec.sqrt", e, run_v_sqrt, Some(oracle_v_elementwise), "VectorMath::sqrt", "Vec.vsqrt / C16.vec_elementwise_eq_scalarop"),
+        ch!("vec.rsqrt", e, run_v_rsqrt, Some(oracle_v_elementwise), "VectorMath::rsqrt", "Vec.rsqrt / C16.vec_elementwise_eq_scalarop"),
+        ch!("vec.hadamard", e, run_v_hadamard, Some(oracle_v_elementwise), "VectorMath::hadamard", "Vec.hadamardFull / C16.vec_hadamard_spec"),
+        ch!("vec.scale", e, run_v_scale, Some(oracle_v_elementwise), "VectorMath::scale", "Vec.scale / C16.vec_elementwise_eq_scalarop"),
+        ch!("vec.translate", e, run_v_translate, Some(oracle_v_elementwise), "VectorMath::translate", "Vec.translate / C16.vec_elementwise_eq_scalarop"),
+        ch!("vec.clip", e, run_v_clip, Some(oracle_v_elementwise), "VectorMath::clip / ScalarMath::clip", "Vec.vclip, Vec.clip / C16.vec_clip_spec"),
+        ch!("vec.select", e, run_v_select, Some(oracle_v_elementwise), "VectorMath::select", "Vec.selectE / C16.vec_select_spec"),
+        ch!("vec.axpby", e, run_v_axpby, Some(oracle_v_elementwise), "VectorMath::axpby", "Vec.axpbyE / C16.vec_axpby_spec"),
+        ch!("vec.waxpby", e, run_v_waxpby, Some(oracle_v_elementwise), "VectorMath::waxpby", "Vec.waxpbyE / C16.vec_waxpby_spec, vec_dot_linear"),
+        ch!("vec.dot_shifted", e, run_v_dot_shifted, Some(oracle_v_reduce2), "VectorMath::dot_shifted", "Vec.dotShiftedE / C16.vec_dotShifted_spec"),
+        ch!("vec.norm_one_scaled", e, run_v_norm_one_scaled, Some(oracle_v_reduce2), "VectorMath::norm_one_scaled", "Vec.normOneScaled / C16.vec_normOne_spec"),
+        ch!("vec.norm_inf_diff", e, run_v_norm_inf_diff, Some(oracle_v_reduce2), "VectorMath::norm_inf_diff", "Vec.normInfDiff / C16.vec_normInfScaled_diff_spec"),
+        ch!("vec.dist", e, run_v_dist, Some(oracle_v_reduce2), "VectorMath::dist", "Vec.dist / C16.vec_norm_real"),
+        ch!("scalar.logsafe", e, run_s_logsafe, Some(oracle_s_logsafe), "ScalarMath::logsafe", "Nonsym.logsafe / C16.logsafe_spec"),
+        ch!("scalar.clip", e, run_s_clip, Some(oracle_s_clip), "ScalarMath::clip", "Vec.clip / C16.vec_clip_spec"),
+        ch!("vec.is_finite", e, run_v_is_finite, Some(oracle_v_reduce2), "VectorMath::is_finite", "Vec.isFinite / C16.vec_isFinite_iff"),
+        ch!("vec.normalize", e, run_v_normalize, Some(oracle_v_reduce2), "VectorMath::normalize", "Vec.normalize / C16.vec_normalize_branches, vec_normalize_real"),
+        ch!("vec.copy_from", e, run_v_copy_from, Some(oracle_v_elementwise), "VectorMath::copy_from", "Vec.copyFrom / C16.vec_copyFrom_spec"),
+        ch!("vec.set", e, run_v_set, Some(oracle_v_elementwise), "VectorMath::set", "Vec.setAll / C16.vec_elementwise_eq_scalarop"),
+        ch!("vec.scalarop", e, run_v_scalarop, Some(oracle_v_elementwise), "VectorMath::scalarop", "Vec.scalarop / C16.vec_scalarop_spec"),
+        ch!("vec.scalarop_from", e, run_v_scalarop_from, Some(oracle_v_elementwise), "VectorMath::scalarop_from", "Vec.scalaropFrom / C16.vec_scalaropFrom_spec"),
     ]
 }
 
@@ -1313,11 +1626,8 @@ fn malformed(s: &mut Session) {
     }
     s.count("malformed");
     s.submit(Line::new("csc.check_format").csc("", &a).done());
-    // canonicalize rejects through check_dimensions; encodings that pass it but start
-    // at colptr[0] != 0 are outside the model's domain
-    if a.colptr.first() == Some(&0) || !welldim_but_shifted(&a) {
-        s.submit(Line::new("csc.canonicalize").csc("", &a).done());
-    }
+    // canonicalize rejects through check_dimensions (colptr[0] != 0 included)
+    s.submit(Line::new("csc.canonicalize").csc("", &a).done());
 }
 fn welldim_but_shifted(a: &CscMatrix<f64>) -> bool {
     a.rowval.len() == a.nzval.len()
@@ -1443,16 +1753,120 @@ fn concat_cases(s: &mut Session) {
     s.submit(l.done());
 }
 
+/// a canonical matrix whose `colptr` is shifted to start at k > 0: k orphan entries in front of
+/// the column data.  `check_format` / `canonicalize` must answer BadColptr (since /repo
+/// 190e6c4); the accessors still run on such unvalidated data.  Only operations whose Rust code reads the
+/// columns through `colptr[j]..colptr[j+1]` or sweeps `rowval`/`nzval` as a whole are sent
+/// (those are the ones the model follows there); builders that restart from index 0
+/// (dropzeros, to_triu, transpose, select_rows, set_entry, rscale, …) are not.
+fn shifted_cases(s: &mut Session) {
+    let (m, n) = (1 + s.rng.below(5), s.rng.below(5));
+    let a = small_canon(s, m, n);
+    let k = 1 + s.rng.below(3);
+    let mut b = a.clone();
+    for c in b.colptr.iter_mut() {
+        *c += k;
+    }
+    let orow: Vec<usize> = (0..k).map(|_| s.rng.below(m)).collect();
+    let oval: Vec<f64> = (0..k).map(|_| s.rng.smallint(3)).collect();
+    b.rowval = orow.iter().cloned().chain(a.rowval.iter().cloned()).collect();
+    b.nzval = oval.iter().cloned().chain(a.nzval.iter().cloned()).collect();
+    s.count("shifted-colptr");
+    let vm = vecv(s, m, VK::Int);
+    let vn = vecv(s, n, VK::Int);
+    let vm_abs: Vec<f64> = vm.iter().map(|v| v.abs()).collect();
+    let vn_abs: Vec<f64> = vn.iter().map(|v| v.abs()).collect();
+    s.submit(Line::new("csc.check_format").csc("", &b).done());
+    s.submit(Line::new("csc.canonicalize").csc("", &b).done());
+    s.submit(Line::new("csc.shape").csc("", &b).done());
+    s.submit(Line::new("csc.is_triu").csc("", &b).done());
+    s.submit(Line::new("csc.findnz").csc("", &b).done());
+    s.submit(Line::new("csc.row_sums").csc("", &b).fs("v", &vm).done());
+    s.submit(Line::new("csc.row_norms").csc("", &b).fs("v", &vm).done());
+    s.submit(Line::new("csc.row_norms_no_reset").csc("", &b).fs("v", &vm_abs).done());
+    s.submit(Line::new("csc.col_sums").csc("", &b).fs("v", &vn).done());
+    s.submit(Line::new("csc.col_norms").csc("", &b).fs("v", &vn).done());
+    s.submit(Line::new("csc.col_norms_no_reset").csc("", &b).fs("v", &vn_abs).done());
+    let (ca, cb) = (coef(s, VK::Int), coef(s, VK::Int));
+    s.submit(Line::new("csc.gemv_n").csc("", &b).fs("y", &vm).fs("x", &vn).f("a", ca).f("b", cb).done());
+    s.submit(Line::new("csc.gemv_t").csc("", &b).fs("y", &vn).fs("x", &vm).f("a", ca).f("b", cb).done());
+    s.submit(Line::new("csc.scale").csc("", &b).f("c", ca).done());
+    s.submit(Line::new("csc.negate").csc("", &b).done());
+    s.submit(Line::new("csc.lscale").csc("", &b).fs("l", &vm).done());
+    if n > 0 {
+        let (i, j) = (s.rng.below(m), s.rng.below(n));
+        s.submit(Line::new("csc.get_entry").csc("", &b).u("row", i).u("col", j).done());
+    }
+    // index_to_coord only from colptr[0] on: below it the Rust expression
+    // `partition_point(..) - 1` underflows (panic in debug, usize::MAX in release)
+    for idx in k..=b.rowval.len() {
+        s.submit(Line::new("csc.index_to_coord").csc("", &b).u("idx", idx).done());
+    }
+    s.submit(Line::new("csc.eq").csc("a", &b).csc("b", &a).done());
+    s.submit(Line::new("csc.is_equal_sparsity").csc("a", &b).csc("b", &b).done());
+}
+
+fn new_eq_cases(s: &mut Session) {
+    // `new`: valid arguments, and arguments broken at one site
+    let (m, n) = (s.rng.below(5), s.rng.below(5));
+    let mut a = small_canon(s, m, n);
+    match s.rng.below(8) {
+        0 => { a.nzval.push(1.0); }
+        1 => { a.rowval.push(0); }
+        2 => { a.colptr.push(a.rowval.len()); }
+        3 => { a.colptr.pop(); }
+        4 => { let l = a.colptr.len(); a.colptr[l - 1] += 1; }
+        5 => { a.n += 1; }
+        // accepted by `new`: unsorted / out-of-range rows, non-monotone colptr
+        6 => { if !a.rowval.is_empty() { let k = s.rng.below(a.rowval.len()); a.rowval[k] = m + 1; } }
+        _ => {}
+    }
+    s.submit(Line::new("csc.new").csc("", &a).done());
+    s.submit(Line::new("csc.shape").csc("", &a).done());
+    // `==`
+    let (m, n) = (s.rng.below(4), s.rng.below(4));
+    let a = small_canon(s, m, n);
+    let mut b = a.clone();
+    match s.rng.below(8) {
+        0 => {}
+        1 => { if !b.nzval.is_empty() { let k = s.rng.below(b.nzval.len()); b.nzval[k] += 1.0; } }
+        2 => { if !b.nzval.is_empty() { let k = s.rng.below(b.nzval.len()); b.nzval[k] = f64::NAN; } }
+        3 => { for v in b.nzval.iter_mut() { if *v == 0.0 { *v = -0.0; } } }
+        4 => { b = small_canon(s, m, n); }
+        5 => { b.m += 1; }
+        6 => { b = small_canon(s, m, n + 1); }
+        _ => { if !b.nzval.is_empty() { let k = s.rng.below(b.nzval.len()); b.nzval[k] = f64::NAN; } let c = b.clone(); s.submit(Line::new("csc.eq").csc("a", &c).csc("b", &c).done()); }
+    }
+    s.submit(Line::new("csc.eq").csc("a", &a).csc("b", &b).done());
+}
+
 fn sparsity_cases(s: &mut Session) {
     let (m, n) = (s.rng.below(5), s.rng.below(5));
     let a = small_canon(s, m, n);
     let mut b = a.clone();
-    match s.rng.below(5) {
+    match s.rng.below(7) {
         0 => {}
         1 => { for v in b.nzval.iter_mut() { *v += 1.0; } }
         2 => { b = small_canon(s, m, n); }
         3 => { b = small_canon(s, m + 1, n); }
-        _ => { b = small_canon(s, m, n + 1); }
+        4 => { b = small_canon(s, m, n + 1); }
+        5 => {
+            // same shape, colptr and number of entries, one row index moved (still canonical):
+            // the last entry of a column goes to a later free row
+            let cands: Vec<usize> = (0..n).filter(|&c| a.colptr[c + 1] > a.colptr[c] && a.rowval[a.colptr[c + 1] - 1] + 1 < m).collect();
+            if !cands.is_empty() {
+                let c = *s.rng.choose(&cands);
+                b.rowval[a.colptr[c + 1] - 1] += 1;
+            }
+        }
+        _ => {
+            // same rowval, an entry moved to the next column (colptr differs)
+            let cands: Vec<usize> = (0..n.saturating_sub(1)).filter(|&c| a.colptr[c + 1] > a.colptr[c]).collect();
+            if !cands.is_empty() {
+                let c = *s.rng.choose(&cands);
+                b.colptr[c + 1] -= 1;
+            }
+        }
     }
     s.submit(Line::new("csc.is_equal_sparsity").csc("a", &a).csc("b", &b).done());
     s.submit(Line::new("csc.check_equal_sparsity").csc("a", &a).csc("b", &b).done());
@@ -1478,26 +1892,62 @@ fn vec_special(s: &mut Session, n: usize) -> Vec<f64> {
 }
 fn vec_cases(s: &mut Session) {
     let n = *s.rng.choose(&[0, 1, 2, 3, 5, 8, 17]);
-    let (x, y) = (vec_special(s, n), vec_special(s, n));
+    // one case in eight: the second operand has another length (the zip kernels truncate,
+    // the asserted ones panic)
+    let ny = if s.rng.bool(0.125) { if s.rng.bool(0.5) { n + 1 + s.rng.below(2) } else { n.saturating_sub(1 + s.rng.below(2)) } } else { n };
+    let (x, y) = (vec_special(s, n), vec_special(s, ny));
+    if ny != n {
+        s.count("vec:length-mismatch");
+    }
     for ch in ["vec.sumsq", "vec.sum", "vec.norm", "vec.norm_inf", "vec.norm_one", "vec.mean", "vec.minimum", "vec.maximum",
-               "vec.negate", "vec.recip", "vec.sqrt", "vec.rsqrt"] {
+               "vec.negate", "vec.recip", "vec.sqrt", "vec.rsqrt", "vec.is_finite", "vec.normalize"] {
         s.submit(Line::new(ch).fs("x", &x).done());
     }
-    for ch in ["vec.dot", "vec.norm_scaled", "vec.norm_inf_scaled", "vec.hadamard"] {
+    for ch in ["vec.dot", "vec.norm_scaled", "vec.norm_inf_scaled", "vec.hadamard", "vec.norm_one_scaled", "vec.norm_inf_diff",
+               "vec.dist", "vec.copy_from"] {
         s.submit(Line::new(ch).fs("x", &x).fs("y", &y).done());
     }
+    // dist / norm_inf_diff of nearby vectors (cancellation), normalize of exactly-zero and of
+    // vectors whose squares underflow to a zero norm
+    if n > 0 {
+        let near: Vec<f64> = x.iter().map(|v| if s.rng.bool(0.5) { *v } else { v * (1.0 + 1e-9) }).collect();
+        s.submit(Line::new("vec.dist").fs("x", &x).fs("y", &near).done());
+        s.submit(Line::new("vec.norm_inf_diff").fs("x", &x).fs("y", &near).done());
+        let z: Vec<f64> = (0..n).map(|_| [0.0, -0.0, 1e-200, -1e-170][s.rng.below(4)]).collect();
+        s.submit(Line::new("vec.normalize").fs("x", &z).done());
+    }
+    s.submit(Line::new("scalar.logsafe").fs("x", &x).done());
+    let lsx: Vec<f64> = (0..6).map(|_| match s.rng.below(5) { 0 => special(s), 1 => s.rng.logmag(-300.0, 300.0).abs(), 2 => 1.0 + s.rng.normal() * 1e-8, _ => s.rng.normal().abs() }).collect();
+    s.submit(Line::new("scalar.logsafe").fs("x", &lsx).done());
+    let (cv, clo, chi) = (if s.rng.bool(0.3) { special(s) } else { s.rng.normal() }, s.rng.normal(), s.rng.normal());
+    s.submit(Line::new("scalar.clip").f("v", cv).f("lo", clo).f("hi", chi).done());
+    s.submit(Line::new("scalar.clip").f("v", clo).f("lo", clo).f("hi", clo.max(chi)).done());
+    let op = s.rng.below(5);
+    s.submit(Line::new("vec.scalarop").fs("x", &x).u("op", op).done());
+    s.submit(Line::new("vec.scalarop_from").fs("x", &x).fs("y", &y).u("op", op).done());
     let c = if s.rng.bool(0.3) { special(s) } else { s.rng.normal() };
     s.submit(Line::new("vec.scale").fs("x", &x).f("c", c).done());
     s.submit(Line::new("vec.translate").fs("x", &x).f("c", c).done());
+    s.submit(Line::new("vec.set").fs("x", &x).f("c", c).done());
     let (lo, hi) = (s.rng.normal(), s.rng.normal());
     let (lo, hi) = if s.rng.bool(0.8) { (lo.min(hi), lo.max(hi)) } else { (lo, hi) };
     s.submit(Line::new("vec.clip").fs("x", &x).f("lo", lo).f("hi", hi).done());
-    let idx: Vec<bool> = (0..n).map(|_| s.rng.bool(0.5)).collect();
+    // clip exactly at the thresholds
+    if n >= 2 {
+        let mut xb = x.clone();
+        xb[0] = lo;
+        xb[1] = hi;
+        s.submit(Line::new("vec.clip").fs("x", &xb).f("lo", lo).f("hi", hi).done());
+    }
+    let nidx = if s.rng.bool(0.1) { n + 1 } else { n };
+    let idx: Vec<bool> = (0..nidx).map(|_| s.rng.bool(0.5)).collect();
     s.submit(Line::new("vec.select").fs("x", &x).bs("idx", &idx).done());
     let (a, b) = (coef(s, VK::Float), coef(s, VK::Float));
     s.submit(Line::new("vec.axpby").f("a", a).fs("x", &x).f("b", b).fs("y", &y).done());
-    s.submit(Line::new("vec.waxpby").f("a", a).fs("x", &x).f("b", b).fs("y", &y).done());
-    let (dz, ds) = (vec_special(s, n), vec_special(s, n));
+    let wlen = if s.rng.bool(0.1) { n + 1 } else { n };
+    s.submit(Line::new("vec.waxpby").f("a", a).fs("x", &x).f("b", b).fs("y", &y).u("wlen", wlen).done());
+    let nds = if s.rng.bool(0.1) { n + 1 } else { ny };
+    let (dz, ds) = (vec_special(s, n), vec_special(s, nds));
     let al = s.rng.unit();
     s.submit(Line::new("vec.dot_shifted").fs("z", &x).fs("s", &y).fs("dz", &dz).fs("ds", &ds).f("a", al).done());
 }
@@ -1505,14 +1955,24 @@ fn vec_cases(s: &mut Session) {
 fn generate(s: &mut Session) {
     if !s.is_searching() {
         s.note("operations WITH a machine-checked theorem (dense meaning and/or canonical output, ClarabelProofs/Props/C16.lean): \
-check_format, from(rows), new_from_triplets, canonicalize (+ identity on canonical input, idempotence), identity, zeros, \
-dropzeros, select_rows, to_triu, transpose, get_entry, set_entry, index_to_coord, gemv N, gemv T, symv, quad_form, col_sums, \
-row_sums, col_norms, col_norms_no_reset, row_norms, row_norms_no_reset, col_norms_sym_no_reset, scale, negate, lscale, \
-rscale, lrscale, hcat, vcat, blockdiag (each with its exact error condition)".to_string());
-        s.note("operations WITHOUT a theorem (model + bit-exact correspondence + dense oracle only): hvcat on a general block grid \
-(hcat/vcat are the proved 1x2 / 2x1 cases; hvcat_dim_check is modelled), findnz, spalloc, is_triu (only as a conjunct of \
-toTriu_spec), is_equal_sparsity / check_equal_sparsity, col_norms_sym (= col_norms_sym_no_reset on zeros by definition), \
-and the 23 vector kernels of vecmath.rs (correspondence with ClarabelModel/Vec.lean only)".to_string());
+check_format, new, from(rows), new_from_triplets, canonicalize (+ identity on canonical input, idempotence), spalloc, identity, zeros, \
+dropzeros, findnz (+ round trip through new_from_triplets), select_rows, to_triu, is_triu, transpose, get_entry, set_entry, \
+index_to_coord, nnz / is_square, == (derived PartialEq), is_equal_sparsity / check_equal_sparsity, gemv N, gemv T, symv, quad_form, \
+col_sums, row_sums, col_norms(_no_reset), row_norms(_no_reset), col_norms_sym(_no_reset), scale, negate, lscale, rscale, lrscale, \
+hcat, vcat, blockdiag, hvcat on a general grid (each with its exact error condition); all 29 kernels of VectorMath plus \
+ScalarMath::clip / logsafe (vec_* theorems: entries of the elementwise kernels and exact panic conditions for every scalar type, \
+reductions as finite sums / maxima over ordered fields, 2-norm family and normalize over the reals, NaN propagation of norm_inf / \
+minimum / maximum as the model encodes it)".to_string());
+        s.note("encodings with colptr[0] = k > 0 (rejected with BadColptr by check_format and canonicalize since /repo 190e6c4 — both \
+channels and their oracles check exactly that; CscMatrix::new and the public fields still admit them): sent only to the operations \
+that read columns through colptr[j]..colptr[j+1] or sweep rowval/nzval as a whole (check_format, canonicalize, shape, is_triu, findnz, row/col sums and norms, gemv N/T, \
+scale, negate, lscale, get_entry, index_to_coord for idx >= k, ==, is_equal_sparsity); theorems rowSums_general_spec, \
+rowNormsNoReset_general_spec, findnz_shifted, indexToCoord_general_spec say what is computed there. NOT sent: index_to_coord below \
+colptr[0] (usize underflow: usize::MAX in release, panic in debug) and the builders that restart at index 0 (dropzeros, \
+to_triu, transpose, select_rows, set_entry, rscale, lrscale, hvcat): there the model is not tied to the code".to_string());
+        s.note("not covered (listed): src/algebra/dense/* and sparsevector (sdp-only, crate-private), _csc_symv_safe (test-only twin of \
+the unchecked symv), csc/utils.rs fill/colcount helpers (model CscBlocks.lean, channels in C11/C12), algebra/utils.rs \
+invperm / sortperm / findmax / position_all (crate-private; invperm in C12, the rest chordal-only)".to_string());
     }
     let shapes: &[(usize, usize)] = if s.thorough() {
         &[(1, 1), (2, 2), (3, 3), (2, 3), (3, 2), (4, 3), (1, 4)]
@@ -1571,6 +2031,10 @@ and the 23 vector kernels of vecmath.rs (correspondence with ClarabelModel/Vec.l
         from_rows_cases(s);
         concat_cases(s);
         sparsity_cases(s);
+        new_eq_cases(s);
+    }
+    for _ in 0..s.budget(150, 5000) {
+        shifted_cases(s);
     }
     for _ in 0..s.budget(200, 5000) {
         vec_cases(s);
